@@ -186,10 +186,11 @@ def spline(potential_forms, potential_form_builder):
 
   spline_factory = [s for s in spline_factories if s.spline_keyword == pot2.potential_form ][0]
 
+  # pot1 and pot3 may be modifiers (e.g. sum(...)) which have a .modifier rather than a .potential_form label
   logger.debug("spline modifier: connecting '{}' with {} to '{}' in range {} to {}".format(
-    pot1.potential_form,
+    getattr(pot1, 'potential_form', getattr(pot1, 'modifier', None)),
     pot2.potential_form,
-    pot2.potential_form,
+    getattr(pot3, 'potential_form', getattr(pot3, 'modifier', None)),
     detach_point, attach_point))
 
   # Now build the spline object
